@@ -1,5 +1,5 @@
 #!/usr/bin/env python3
-"""C19 -- CCITT Group 4 decoding inverts a conforming encoder for every bitmap (DESIGN.md 3.C19)."""
+"""C19 -- CCITT Group 4 decoding inverts a conforming encoder for every bitmap (DESIGN.md section 4, C19)."""
 import io
 import itertools
 import os
@@ -43,7 +43,7 @@ MANIFEST_ENTRY = {
             "the reference line) is NOT proved; it is covered by exhaustive small bitmaps and random large ones against both "
             "the implementation and the model (claimed partial).",
     "note": "Trusted: Coq kernel, table translator, typed-in T.4/T.6 tables, hand model tied by differential runs, harness encoder.",
-    "design_ref": "DESIGN.md 3.C19",
+    "design_ref": "DESIGN.md section 4, C19",
 }
 
 # ITU-T T.4 tables (typed from the Recommendation; cross-checked in Coq against Spec/T6Tables.v)
